@@ -123,6 +123,15 @@ def rule_execute_string(ctx):
                                       f"of the parts [INSERT, comment-only, empty, UPDATE] execute_string executes {rendered or 'nothing'} "
                                       f"({'raises ' + p.value.cls if p.outcome == 'raise' else 'returns'}); expected the INSERT then the UPDATE")
                         continue
+                    opts = sorted({k for r_ in rs if r_ is not None and len(r_.origin) > 3 for k in (r_.origin[3] or {})})
+                    oko = not opts
+                    ctx.ob("C16.a", "each part is re-generated with the generator's default layout (no options besides the dialect)", oko,
+                           "fakesnow/conn.py", str(opts))
+                    if not oko:
+                        ctx.violation("C16.a", "conn", "FakeSnowflakeConnection.execute_string", f"statements re-generated with options {opts}", "fakesnow/conn.py",
+                                      f"execute_string re-generates each statement with the generator option(s) {opts}: the text that execute() sees (and "
+                                      f"matches nop_regexes against, logs, records) differs from the one-line text of executing the statement on its own — "
+                                      f"`pretty=True` puts clauses on separate lines, so a pattern with a blank or `.*` across a clause boundary stops matching")
                     okd = all(isinstance(d, Const) and d.v == "snowflake" for d in dialects)
                     ctx.ob("C16.a", "each part is re-generated as Snowflake SQL", okd, "fakesnow/conn.py")
                     if not okd:
